@@ -330,7 +330,12 @@ def execute(case, sched_spec=None, max_steps=20000):
         backend = qmod.QueueScheduling(case['workers'])
         backend_box['backend'] = backend
         sched = Scheduler(hard_graph=hgraph, soft_graph=sgraph, backend=backend)
-        return sched.schedule(env=env)
+        res = sched.schedule(env=env)
+        for _ in range(int(case.get('again') or 0)):
+            # the same Scheduler (and back-end) object is used again on the environment
+            # that the previous call left (entries DONE / FAILED / SKIPPED of an earlier run)
+            res = sched.schedule(env=env)
+        return res
 
     schedule = make_schedule(sched_spec or case['sched'])
     ctrl, how, value = vsched.run_controlled(schedule, body, max_steps=max_steps)
